@@ -94,6 +94,8 @@ def _make(case):
                 pass
         X = np.array(m.GetConformer().GetPositions(), dtype=float)
         return [a.GetAtomicNum() for a in m.GetAtoms()], X, {"smiles": smi}
+    if src == "coords":  # explicit coordinates (committed witnesses)
+        return list(case["els"]), np.array(case["X"], dtype=float), {"note": case.get("note", "")}
     if src == "xyz":
         from stereomolgraph.coords import Geometry
 
@@ -213,8 +215,48 @@ def check_case(ctx, case):
                 for k2, dd in got[key].items():
                     if k2 not in want[key]:
                         klass = klass or dd[0]
+            amb = _order_dependent_planarity(want, got, X, perm)
+            if amb:
+                ctx.count("order_dependent_planarity_cases")
+                ctx.violate(f"C07/planarity-depends-on-atom-order/{amb}", f"{src} geometry {info}, {kind}: {'; '.join(diff[:2])} - the same four points are within 1 A of a plane seen from one apex and not from another; are_planar() only evaluates the last point of each quadruple in input order", case)
+                continue
             ctx.violate(f"C07/not-invariant/{kind if kind in ('reflect',) else ('mirror+' if mirrored else '') + 'rigid-or-permutation'}/{part}/{klass or 'bonds'}", f"{src} geometry, {kind}: {'; '.join(diff[:2])}", case)
     ctx.sample({"source": src, "info": info, "n_atoms": len(els), "descriptors": n_desc, "kinds": case["kinds"]})
+
+
+def _order_dependent_planarity(want, got, X, perm):
+    """Mechanism classifier for the recorded finding. Returns a label when (i) the atoms were reordered, (ii) the two
+    perceptions have the same bonds and differ ONLY in items whose class decision is a planarity test - a
+    four-coordinate centre that is Tetrahedral in one and SquarePlanar in the other, or a PlanarBond present in one
+    and absent in the other - and (iii) for every such item the harness's own geometry computation shows that the
+    planarity of its points depends on which apex is evaluated. Anything else keeps the generic key."""
+    if list(perm) == list(range(len(perm))):
+        return None
+    if set(want["bonds"]) != set(got["bonds"]):
+        return None
+    new2old = {new: old for new, old in enumerate(perm)}
+    labels = set()
+    for k in set(want["astereo"]) | set(got["astereo"]):
+        a, b = want["astereo"].get(k), got["astereo"].get(k)
+        if a is not None and b is not None and sem.desc_equiv(a, b):
+            continue
+        if a is None or b is None or {a[0], b[0]} != {"Tetrahedral", "SquarePlanar"}:
+            return None
+        lig = [new2old[x] for x in a[1][1:]]
+        if sorted(lig) != sorted(new2old[x] for x in b[1][1:]) or not geom.straddles(X, lig):
+            return None
+        labels.add("Tetrahedral-vs-SquarePlanar")
+    for k in set(want["bstereo"]) | set(got["bstereo"]):
+        a, b = want["bstereo"].get(k), got["bstereo"].get(k)
+        if a is not None and b is not None and sem.desc_equiv(a, b):
+            continue
+        d = a if b is None else b if a is None else None
+        if d is None or d[0] != "PlanarBond" or None in d[1]:
+            return None
+        if not geom.straddles(X, [new2old[x] for x in d[1]]):
+            return None
+        labels.add("PlanarBond-present-vs-absent")
+    return "+".join(sorted(labels)) if labels else None
 
 
 def _bondset(els, X):
